@@ -1,6 +1,7 @@
 package main
 
 import (
+	"context"
 	"crypto/sha256"
 	"encoding/json"
 	"flag"
@@ -236,10 +237,14 @@ func solveAll(obls []*Obligation, dir string, timeout int) {
 					return
 				}
 				to := timeout
-				if o.MustBeSat && to > 4 {
-					to = 4
+				var r SolveResult
+				if o.MustBeSat {
+					// vacuity guards only need "not unsat": one solver, short time-out
+					st, out, el := runSolver(context.Background(), solvers[0], file, 2)
+					r = SolveResult{Status: st, Solver: solvers[0].name, Time: el, Output: out, Outputs: map[string]string{solvers[0].name: truncate(out, 2000)}}
+				} else {
+					r = solve(file, to)
 				}
-				r := solve(file, to)
 				if agg == nil {
 					agg = &r
 					o.File = file
@@ -429,23 +434,7 @@ func cmdCheck(prop, tier string) int {
 				functions = append(functions, g.fname)
 				continue
 			}
-			if tier != "thorough" {
-				// quick tier: one reachability canary per function (its last return); thorough: every return
-				last := -1
-				for i, o := range g.obls {
-					if o.Class == "V" && strings.HasSuffix(o.Name, ":reachable") {
-						last = i
-					}
-				}
-				var keep []*Obligation
-				for i, o := range g.obls {
-					if o.Class == "V" && strings.HasSuffix(o.Name, ":reachable") && i != last {
-						continue
-					}
-					keep = append(keep, o)
-				}
-				g.obls = keep
-			}
+
 			if len(g.obls) > 0 {
 				functions = append(functions, g.fname)
 			}
